@@ -99,6 +99,7 @@ fn build_validation() -> Validation {
     let mut v = Validation::new(Algorithm::EdDSA);
     v.set_required_spec_claims(&AnyClaims::required_claims());
     v.set_audience(&["snap"]);
+    v.validate_nbf = true;
     v
 }
 
